@@ -27,6 +27,50 @@ const PROPS: &[Prop] = &[
     Prop { id: "C15", level: "exploration", run: props::c15::run, replay: props::c15::replay },
 ];
 
+fn fuzz_target_of(prop: &str) -> Option<hcverif::fuzz::Target> {
+    use hcverif::fuzz::Target;
+    match prop {
+        "C01" => Some(Target::Ops),
+        "C04" => Some(Target::Proof),
+        "C06" => Some(Target::Storage),
+        "C09" => Some(Target::Request),
+        _ => None,
+    }
+}
+
+/// Thorough tier: fold the libFuzzer campaign that ./check ran just before (summary file in
+/// HCV_FUZZ_SUMMARY) into the evidence and re-check every artifact it saved with the same oracle.
+fn fuzz_stage(ctx: &Ctx, prop: &str) {
+    let Ok(path) = std::env::var("HCV_FUZZ_SUMMARY") else { return };
+    let Some(t) = fuzz_target_of(prop) else { return };
+    let Ok(txt) = std::fs::read_to_string(&path) else { return };
+    let Ok(v) = serde_json::from_str::<Value>(&txt) else { return };
+    let execs = v.get("execs_done").and_then(|x| x.as_u64()).unwrap_or(0);
+    let mut local = ctx.new_local();
+    local.evals += execs;
+    local.class_n("libfuzzer_executions", execs);
+    if let Some(arts) = v.get("new_artifacts").and_then(|a| a.as_array()) {
+        for a in arts {
+            let Some(ap) = a.as_str() else { continue };
+            let Ok(raw) = std::fs::read(ap) else { continue };
+            ctx.slot_begin(0, "libfuzzer-artifact", || format!("{{\"artifact\":\"{ap}\"}}"));
+            let (case, r) = hcverif::fuzz::run_target(t, &raw);
+            ctx.slot_end(0);
+            local.class("libfuzzer_artifacts_rechecked");
+            if let Err(f) = r {
+                if !ctx.is_known(&f) {
+                    ctx.report_failure(f, case, &format!("libfuzzer:{ap}"));
+                }
+            } else {
+                local.class("libfuzzer_artifacts_not_reproduced");
+            }
+        }
+    }
+    ctx.merge(local);
+    ctx.extra("libfuzzer_stage", v);
+    ctx.stage_done("libfuzzer", serde_json::json!({"execs": execs}));
+}
+
 fn usage() -> ! {
     eprintln!("usage: hcv <Cxx> quick|thorough | hcv <Cxx> --replay <file>");
     std::process::exit(2);
@@ -43,6 +87,24 @@ fn main() {
     if args.len() < 3 {
         usage();
     }
+    if args[1] == "fuzzcase" {
+        // hcv fuzzcase <target> <file>: decode libFuzzer input bytes exactly as the fuzz target does and check the case
+        let t = hcverif::fuzz::Target::parse(&args[2]).unwrap_or_else(|| usage());
+        let data = std::fs::read(args.get(3).unwrap_or_else(|| usage())).expect("read input file");
+        let (case, r) = hcverif::fuzz::run_target(t, &data);
+        println!("case: {}", hcverif::runner::truncate(&case.to_string(), 2000));
+        match r {
+            Ok(()) => {
+                println!("replay: property {} held on this input", t.property());
+                std::process::exit(0);
+            }
+            Err(f) => {
+                eprintln!("failure [{}]: {}", f.kind, f.detail);
+                println!("VIOLATION property={} replay={}", t.property(), args[3]);
+                std::process::exit(1);
+            }
+        }
+    }
     let Some(p) = PROPS.iter().find(|p| p.id == args[1]) else {
         eprintln!("unknown property {}", args[1]);
         std::process::exit(2);
@@ -50,8 +112,28 @@ fn main() {
     let seed: u64 = std::env::var("VERIF_SEED").ok().and_then(|s| s.parse().ok()).unwrap_or(1);
     if args[2] == "--replay" {
         let path = args.get(3).unwrap_or_else(|| usage());
-        let txt = std::fs::read_to_string(path).expect("read replay file");
-        let v: Value = serde_json::from_str(&txt).expect("parse replay file");
+        let raw = std::fs::read(path).expect("read replay file");
+        let parsed: Option<Value> = std::str::from_utf8(&raw).ok().and_then(|t| serde_json::from_str(t).ok());
+        let Some(v) = parsed else {
+            // not JSON: a raw libFuzzer artifact of this property's fuzz target
+            let t = fuzz_target_of(p.id).unwrap_or_else(|| {
+                eprintln!("{} has no fuzz target; the replay file is not JSON", p.id);
+                std::process::exit(2)
+            });
+            let (case, r) = hcverif::fuzz::run_target(t, &raw);
+            eprintln!("decoded case: {}", hcverif::runner::truncate(&case.to_string(), 2000));
+            match r {
+                Ok(()) => {
+                    println!("replay: property {} held on {}", p.id, path);
+                    std::process::exit(0);
+                }
+                Err(f) => {
+                    eprintln!("replay failure [{}]: {}", f.kind, f.detail);
+                    println!("VIOLATION property={} replay={}", p.id, path);
+                    std::process::exit(1);
+                }
+            }
+        };
         let case = v.get("case").cloned().unwrap_or(v.clone());
         match (p.replay)(&case) {
             Ok(()) => {
@@ -91,6 +173,9 @@ fn main() {
         }
         ctx.stage_done("regress", serde_json::json!({"files": n}));
     }
-    ctx.with_watchdog(|| (p.run)(&ctx));
+    ctx.with_watchdog(|| {
+        (p.run)(&ctx);
+        fuzz_stage(&ctx, p.id);
+    });
     std::process::exit(ctx.finish());
 }
